@@ -48,6 +48,8 @@ func pwVariant(pw, class string) string {
 		return ""
 	case "longer":
 		return pw + "x"
+	case "padded":
+		return pw + " "
 	default:
 		if pw == "" {
 			return "not-empty"
